@@ -162,7 +162,9 @@ def arbitrary_body(case):
 # (b) grammar with faults
 
 _TXT = st.sampled_from(["a", "b", "name one", "", " ", "x,y", "[1,2]", "1", "abc", "2020-01-01", "ä", "&amp;",
-                        "<![CDATA[c<d]]>", "&#10;", "t", "n.s."])
+                        "<![CDATA[c<d]]>", "&#10;", "t", "n.s.",
+                        # text that means something to the string formatting of messages
+                        "%", "90% of all", "rate %s %d", "{0} {x}", "%(name)s", "\\"])
 _IDS = st.sampled_from(["1a2b3c4d-0000-4000-8000-00000000000a", "garbage", "", "1A2B3C4D-0000-4000-8000-00000000000A"])
 _CARD = st.sampled_from(["(1, 2)", "(None, 3)", "(2, None)", "(2, 2)", "(3, 1)", "abc", "()", "(1,2,3)", "(-1, 2)",
                          "1", "(a, b)", ""])
